@@ -1,6 +1,7 @@
 #!/bin/bash
 # tools/run_all.sh <seed> [tier] : runs every claimed check once, prints one line per check
 cd "$(dirname "$0")/.."
+mkdir -p work
 SEED=${1:-0}; TIER=${2:-quick}
 for P in $(python3 -c "import json; print(' '.join(c['property_id'] for c in json.load(open('MANIFEST.json'))['checks']))"); do
   s=$(date +%s)
